@@ -37,6 +37,18 @@ def name_fn(kind, cfgname, name, exhaustive):
     return "None"
 
 
+PLAIN_PRIMS = {"string", "datetime", "integer", "double", "safelong", "binary", "boolean", "uuid", "rid", "bearertoken"}
+
+
+def plain_capable(name, kind, shape):
+    """generated types that implement Plain + FromPlain: enums and aliases of PLAIN primitives"""
+    if kind == "enum":
+        return True
+    if kind == "alias" and shape is not None and shape.depth == 0 and shape.text in PLAIN_PRIMS:
+        return True
+    return False
+
+
 class TypesBuild:
     """the shared build of C02 / C10 / C14: chunks of the type space, each generated under every
     configuration and compiled into one probe binary per chunk"""
@@ -84,6 +96,10 @@ class TypesBuild:
             for name, kind, _shape in ch["index"]:
                 for cname, cfg in self.configs:
                     arms.append('        "%s:%s" => probe::run::<%s::com::verif::%s>(req, %s),' % (cname, name, cname, name, name_fn(kind, cname, name, cfg["exhaustive"])))
+            for name, kind, shape in ch["index"]:
+                if plain_capable(name, kind, shape):
+                    for cname, cfg in self.configs:
+                        arms.append('        "plain:%s:%s" => probe::run_plain::<%s::com::verif::%s>(req),' % (cname, name, cname, name))
             main = H.DISPATCH_MAIN % {"mods": mods, "arms": "\n".join(arms)}
             crate = os.path.join(self.root, "ws", "bin%d" % ci)
             H.write_crate(crate, "e2bin%d" % ci, main_rs=main)
@@ -332,7 +348,7 @@ def main():
     a.replay_case = None
     if a.replay:
         a.replay_case = json.load(open(a.replay))["case"]
-    level = {"C02": "model_checking", "C10": "model_checking", "C14": "model_checking", "C03": "exploration"}[a.prop]
+    level = {"C12": "exploration", "C02": "model_checking", "C10": "model_checking", "C14": "model_checking", "C03": "exploration"}[a.prop]
     rep = Report(a.prop, level)
     if a.prop == "C02":
         run_c02(a, rep)
@@ -342,6 +358,9 @@ def main():
     elif a.prop == "C14":
         import c14
         c14.run(a, rep, TypesBuild, tref)
+    elif a.prop == "C12":
+        import c12
+        c12.run(a, rep, TypesBuild, tref)
     elif a.prop == "C03":
         import c03
         c03.run(a, rep)
